@@ -30,6 +30,7 @@ use rpharness::*;
 use std::collections::{BTreeMap, HashMap};
 
 const TOL: f64 = 1e-4;
+const UNDERFLOW_ZONE: f64 = 1e-30;
 const SCALE_FLOOR: f64 = 9.094947017729282e-13; // 2^-40
 
 struct Dump {
@@ -41,6 +42,10 @@ struct Dump {
     kids: Vec<Vec<usize>>,
     sigma: BTreeMap<(usize, u8), f32>,
     depth: Vec<usize>,
+    /// external reach of each node (product of the opponent's weights on the path from the root), f64
+    ext: Vec<f64>,
+    /// smallest external reach among the leaves below each node
+    minext: Vec<f64>,
 }
 
 fn dump(tree: &Tree, profile: &Profile) -> Dump {
@@ -57,6 +62,8 @@ fn dump(tree: &Tree, profile: &Profile) -> Dump {
         kids: vec![vec![]; n],
         sigma: BTreeMap::new(),
         depth: vec![0; n],
+        ext: vec![1.0; n],
+        minext: vec![1.0; n],
     };
     for (i, node) in nodes.iter().enumerate() {
         assert!(node.index().index() == i);
@@ -79,6 +86,14 @@ fn dump(tree: &Tree, profile: &Profile) -> Dump {
                 d.sigma.insert((d.bucket[i], u8::from(*e)), profile.weight(node.bucket(), e));
             }
         }
+    }
+    for i in 0..n {
+        if let Some(p) = d.parent[i] {
+            d.ext[i] = d.ext[p] * if d.kind[p] == 'o' { d.sig(p, i) } else { 1.0 };
+        }
+    }
+    for i in (0..n).rev() {
+        d.minext[i] = if d.kids[i].is_empty() { d.ext[i] } else { d.kids[i].iter().map(|&c| d.minext[c]).fold(f64::INFINITY, f64::min) };
     }
     d
 }
@@ -141,6 +156,23 @@ fn check_set(run: &mut Run, d: &Dump, v: &[f64], va: &[f64], roots: &[usize], re
             return;
         }
     };
+    // histogram of the opponents' (external) reach of the checked heads
+    let he = roots.iter().map(|&h| d.ext[h]).fold(f64::INFINITY, f64::min);
+    let le = roots.iter().map(|&h| d.minext[h]).fold(f64::INFINITY, f64::min);
+    let bin = |x: f64| if x >= 1e-3 { ">=1e-3" } else if x >= 1e-6 { "1e-6..1e-3" } else if x >= 1e-9 { "1e-9..1e-6" } else if x >= 1e-12 { "1e-12..1e-9" } else if x >= 1e-20 { "1e-20..1e-12" } else if x >= 1e-30 { "1e-30..1e-20" } else if x > 0.0 { "<1e-30" } else { "=0" };
+    // f32 cannot represent the external reach of the leaves (the divisor of every terminal value)
+    // below ~1e-38, and loses precision below 1e-38 x 2^23: such sets are outside what the f32 code
+    // can compute at all (original code included); they are counted with what the real code
+    // returned, not compared. In training a head's external reach is the probability with which the
+    // line was sampled, so these states are reached with probability < 1e-30.
+    let underflow = le < UNDERFLOW_ZONE;
+    run.count(&format!("head-external-reach {}{}", bin(he), if underflow { " (leaf reach < 1e-30: f32 underflow zone, not compared)" } else { "" }));
+    if underflow {
+        let floor = robopoker::verif::REGRET_MIN;
+        let kind = if real.values().any(|r| *r == floor) { "records REGRET_MIN (NaN or -inf clamped)" } else if real.values().all(|r| *r == 0.0) { "records 0" } else { "records finite values" };
+        run.count(&format!("underflow-zone: real regret_vector {kind}"));
+        return;
+    }
     let mut scales: Vec<f64> = vec![];
     let mut flat = true;
     let mut centered = 0f64;
@@ -305,9 +337,9 @@ fn main() {
     let mut rng = Rng::new(a.seed);
     let mut run = Run::new(&a.out);
     quiet_panics();
-    let (epochs, batch, per_tree, synthetic_per_tree, converged, directed, stored) = if a.thorough() { (60usize, 8usize, 40usize, 12usize, 12usize, 12usize, 8usize) } else { (14, 3, 8, 6, 4, 4, 2) };
+    let (epochs, batch, per_tree, synthetic_per_tree, converged, directed, stored, skewed) = if a.thorough() { (60usize, 8usize, 40usize, 12usize, 12usize, 12usize, 8usize, 16usize) } else { (14, 3, 8, 6, 4, 4, 2, 8) };
     run.rule = format!(
-        "{epochs} training epochs x {batch} trees sampled by the real Blueprint::tree from an initially empty Profile with the stand-in abstraction, traverser alternating; profile updated as Blueprint::solve does; then one tree at each side of the Discount/Explore and Explore/Prune phase boundaries (epoch counter set by the hook); then {directed} directed long-hand trees (scripted opponent) through the real Partition::from, checked against an independent grouping by bucket; {stored} trees with extreme STORED regrets (metamorphic: regret_vector unchanged bit for bit); then {converged} trees in 'converged strategy' profile states (every traverser bucket of the tree: one action ~1, the others 1e-10..1e-12 via verif_set_memory, both traversers). Search oracle: textbook estimator in f64 on every information set of every tree (tolerance {TOL}·Σ|terms|). Correspondence: every tree dumped, with its multi-node information sets, its largest information set and a random sample (up to {per_tree} per tree). An information set is non-trivial when Σ|terms| > 0 and it has >= 2 actions; distinct by (epoch, tree, bucket id). Deals come from the code's own thread_rng (every third tree uses the forced draw index from VERIF_SEED); each dumped tree is self-contained in ops.txt"
+        "{epochs} training epochs x {batch} trees sampled by the real Blueprint::tree from an initially empty Profile with the stand-in abstraction, traverser alternating; profile updated as Blueprint::solve does; then one tree at each side of the Discount/Explore and Explore/Prune phase boundaries (epoch counter set by the hook); then {directed} directed long-hand trees (scripted opponent) through the real Partition::from, checked against an independent grouping by bucket; {stored} trees with extreme STORED regrets (metamorphic: regret_vector unchanged bit for bit); then {skewed} trees (long steered hands and sampled trees, both traversers) evaluated against SKEWED OPPONENT strategies set after the tree was built (weights 1/1e-2/1e-4/1e-6 or 1 vs 1e-12 per action), so that the external reach of the heads spans 1..1e-30 (histogram head-external-reach; sets whose leaf reach is below 1e-30 are in the f32 underflow zone and only counted); then {converged} trees in 'converged strategy' profile states (every traverser bucket of the tree: one action ~1, the others 1e-10..1e-12 via verif_set_memory, both traversers). Search oracle: textbook estimator in f64 on every information set of every tree (tolerance {TOL}·Σ|terms|). Correspondence: every tree dumped, with its multi-node information sets, its largest information set and a random sample (up to {per_tree} per tree). An information set is non-trivial when Σ|terms| > 0 and it has >= 2 actions; distinct by (epoch, tree, bucket id). Deals come from the code's own thread_rng (every third tree uses the forced draw index from VERIF_SEED); each dumped tree is self-contained in ops.txt"
     );
     let bp = Blueprint::verif_new(Profile::default(), Encoder::default());
     let profile = bp.verif_profile();
@@ -336,6 +368,14 @@ fn main() {
     // column stays as trained: the recorded regret must not depend on them
     for k in 0..stored {
         schedule.push((2000 + k, 1, 2));
+    }
+    // skewed OPPONENT strategies: trees are sampled (or steered along long hands) first, then the
+    // opponent's stored policies at the buckets of the tree are overwritten with weights spread over
+    // many orders of magnitude (1 / 1e-2 / 1e-4 / 1e-6 per action in a random rotation, or 1 against
+    // 1e-12) and the tree is evaluated against that profile: the external reach of the heads then
+    // spans 1 .. 1e-30 (histogram `head-external-reach` in the statistics)
+    for k in 0..skewed {
+        schedule.push((3000 + k, 1, 4));
     }
     for k in 0..converged {
         schedule.push((16000 + k, 1, 1));
@@ -367,6 +407,41 @@ fn main() {
                     }
                 }
                 run.count("directed-deep-tree");
+            }
+            if mode == 4 {
+                // long steered hands for the first half, sampled trees for the second
+                if (epoch - 3000) % 4 < 2 {
+                    tree = directed_tree(&mut profile.write().unwrap(), &Encoder::default(), [9u64, 0][((epoch - 3000) / 4) % 2], &mut rng);
+                } else {
+                    for _ in 0..6 {
+                        if (300..=9000).contains(&tree.all().len()) {
+                            break;
+                        }
+                        tree = bp.verif_tree();
+                    }
+                }
+                let walker = tree.walker();
+                let mut p = profile.write().unwrap();
+                let mut seen: std::collections::HashSet<Bucket> = Default::default();
+                for node in tree.all() {
+                    let opp = matches!(node.player(), Player(Turn::Choice(_))) && node.player() != walker;
+                    if opp && !node.children().is_empty() && seen.insert(node.bucket().clone()) {
+                        let menu: Vec<Edge> = Vec::<Edge>::from(node.bucket().2.clone());
+                        let rot = rng.below(4) as usize;
+                        let pattern = rng.below(10);
+                        for (j, e) in menu.iter().enumerate() {
+                            let (r, _) = p.verif_memory(node.bucket(), e).expect("witnessed");
+                            let pol = match pattern {
+                                0 => if j == rot % menu.len() { 1e-12 } else { 1.0 },        // the sampled edge may be the tiny one
+                                1..=2 => 1.0,                                                 // left uniform
+                                3..=5 => [1.0f32, 1e-1, 1e-2, 1e-3][(j + rot) % 4],
+                                _ => [1.0f32, 1e-2, 1e-4, 1e-6][(j + rot) % 4],
+                            };
+                            p.verif_set_memory(node.bucket(), e, r, pol);
+                        }
+                    }
+                }
+                run.count("skewed-opponent-tree");
             }
             if converged {
                 for _ in 0..6 {
@@ -450,8 +525,18 @@ fn main() {
             multi.truncate(if mode == 3 { 12 } else { per_tree / 2 });
             chosen.extend(multi);
             if let Some(big) = (0..infos.len()).min_by_key(|&i| infos[i].roots()[0].index().index()) {
-                if mode != 3 && !chosen.contains(&big) {
+                if mode != 3 && !(mode == 4 && n > 9000) && !chosen.contains(&big) {
                     chosen.push(big);
+                }
+            }
+            if mode == 4 {
+                // the heads with the smallest external reach that the f32 code can still represent
+                let mut by_ext: Vec<usize> = (0..infos.len()).filter(|&i| d.minext[infos[i].roots()[0].index().index()] >= UNDERFLOW_ZONE).collect();
+                by_ext.sort_by(|&a, &b| d.ext[infos[a].roots()[0].index().index()].partial_cmp(&d.ext[infos[b].roots()[0].index().index()]).unwrap());
+                for &i in by_ext.iter().take(8) {
+                    if !chosen.contains(&i) {
+                        chosen.push(i);
+                    }
                 }
             }
             if converged {
@@ -471,7 +556,8 @@ fn main() {
                 }
             }
             // on the (large) directed trees only the multi-node sets and a random sample are evaluated
-            let selected: Vec<bool> = (0..infos.len()).map(|i| mode != 3 || sizes[i] > 1 || chosen.contains(&i) || rng.chance(150, infos.len().max(150) as u64)).collect();
+            let large = mode == 3 || (mode == 4 && n > 9000);
+            let selected: Vec<bool> = (0..infos.len()).map(|i| !large || d.ext[infos[i].roots()[0].index().index()] < 1e-9 || sizes[i] > 1 || chosen.contains(&i) || rng.chance(150, infos.len().max(150) as u64)).collect();
             for (ix, info) in infos.into_iter().enumerate() {
                 if !selected[ix] {
                     continue;
